@@ -127,6 +127,12 @@ def specs(tier, seed):
         out.append({"seed": seed * 100000 + 99500 + i,
                     "sess": {"qtype": ["NULL", "TXT", "CNAME", "MX"][(i // 2) % 4], "lazy": i % 2, "maxlen": ml},
                     "relay": {}, "pkts": pk, "dur_ms": 15000, "label": "frag17-%d" % i})
+    # a few ordinary transfers with both programs compiled for a platform where plain char is unsigned
+    for i in range(4 if tier == "quick" else 40):
+        out.append({"seed": seed * 100000 + 99800 + i, "flavour": "uchar",
+                    "sess": {"qtype": common.QTYPES[i % 7], "lazy": i % 2, "downenc": common.DOWNENCS[i % 5]},
+                    "relay": {"p_drop": 0.1 * (i % 2), "p_dup": 0.1}, "fault_ms": [0, 15000],
+                    "pkts": common.packets(seed + 9000 + i, tier), "dur_ms": 30000, "label": "uchar%d" % i})
     return common.fit_frag(out)
 
 
